@@ -705,7 +705,7 @@ func init() {
 	fw.Register(&fw.Prop{
 		ID:          "C19",
 		Level:       "fault_enumeration",
-		Rule:        "(sequential) representative requests, alone and behind a PING: end of stream at EVERY byte offset with EOF, with reset, and with reset where the transport's Close reports an error although it closes (TLS peer gone), a Write failing from call 1..3, QUIT at each pipeline position (also with a failing write), every single-byte substitution of 18 valid streams; oracle: loop returned, transport closed, registry empty. (scheduled) a server with plain and TLS port started with Start(), 0..2 background connections, then every sequence of 1..2 endings out of {EOF at a boundary, EOF inside a request, reset inside a request, QUIT, malformed frame, client that stops reading until the server's Write parks and then resets, TLS garbage handshake, TLS abort after ClientHello, TLS certificate rejected by the common-name rule, valid TLS client then reset, valid TLS client then orderly close}, real crypto/tls, every schedule with <=1 deviation (thorough phases, in order: sequences of 3 endings on the default schedule, Stop races at bound 3, sequences of <=2 endings at bound 2, sequences of 3 at bound 1; each complete only when its <phase>_done counter equals <phase>_scenarios); after each ending, at quiescence: the server closed that socket, no server goroutine is parked on it, the registry holds exactly the background connections, which are still served; finally Stop releases everything (sockets, goroutines, registry, listeners). Plus churn (every ending mode three times in a row, forwards and pairwise backwards, with two connections kept open, and three endings next to 70 open connections followed by Stop; default schedule; thorough: one deviation), and Stop racing with a connecting client, a client still in the accept backlog, a client with a command in flight, a client in the TLS handshake one stalled before its ClientHello, a plain and a TLS client that pipelined requests and stopped reading so that the server's reply Write is parked, and Stop after a second Start() on the running server, which must leave registry and connections as they were (deviation bound 2). A connection loop that spins or waits for a lock it holds itself is reported as a goroutine that never ends. Stop scenarios also with the ports disabled in the configuration (by the API, by CONFIG SET) before Stop. Stop after an application goroutine enumerated the registry while clients came and went (vrt.RWMutex excludes new readers while a writer waits, as sync.RWMutex does, so recursive read locking deadlocks). The in-memory connections implement CloseWrite (half close), so a server that lingers after QUIT until the client closes is seen holding socket and goroutine.",
+		Rule:        "(sequential) representative requests, alone and behind a PING: end of stream at EVERY byte offset with EOF, with reset, and with reset where the transport's Close reports an error although it closes (TLS peer gone), a Write failing from call 1..3, QUIT at each pipeline position (also with a failing write), every single-byte substitution of 18 valid streams; oracle: loop returned, transport closed, registry empty. (scheduled) a server with plain and TLS port started with Start(), 0..2 background connections, then every sequence of 1..2 endings out of {EOF at a boundary, EOF inside a request, reset inside a request, QUIT, malformed frame, client that stops reading until the server's Write parks and then resets, TLS garbage handshake, TLS abort after ClientHello, TLS certificate rejected by the common-name rule, valid TLS client then reset, valid TLS client then orderly close}, real crypto/tls, every schedule with <=1 deviation (thorough phases, in order: sequences of 3 endings on the default schedule, Stop races at bound 3, sequences of <=2 endings at bound 2, sequences of 3 at bound 1; each complete only when its <phase>_done counter equals <phase>_scenarios); after each ending, at quiescence: the server closed that socket, no server goroutine is parked on it, the registry holds exactly the background connections, which are still served; finally Stop releases everything (sockets, goroutines, registry, listeners). Plus churn (every ending mode three times in a row, forwards and pairwise backwards, with two connections kept open, and three endings next to 70 open connections followed by Stop; default schedule; thorough: one deviation), and Stop racing with a connecting client, a client still in the accept backlog, a client with a command in flight, a client in the TLS handshake one stalled before its ClientHello, a plain and a TLS client that pipelined requests and stopped reading so that the server's reply Write is parked, and Stop after a second Start() on the running server, which must leave registry and connections as they were (deviation bound 2). A connection loop that spins or waits for a lock it holds itself is reported as a goroutine that never ends. Stop scenarios also with the ports disabled in the configuration (by the API, by CONFIG SET) before Stop. Stop after an application goroutine enumerated the registry while clients came and went (vrt.RWMutex excludes new readers while a writer waits, as sync.RWMutex does, so recursive read locking deadlocks). The in-memory connections implement CloseWrite (half close), so a server that lingers after QUIT until the client closes is seen holding socket and goroutine. Six endings are also run beside a client that never reads its replies.",
 		Assumptions: []string{"the in-memory transport is the only kind of descriptor the framework opens besides listeners: 'descriptor released' = Close called on it", "10^4-cycle churn and /proc/self/fd counts are replaced by zero residue per ending from every reachable small registry state"},
 		Run:         c19Run,
 		Replay:      c19Replay,
